@@ -102,7 +102,7 @@ Lemma no_cr_cons c r : no_cr (c :: r) = true -> (c =? 13) = false /\ no_cr r = t
 Proof. unfold no_cr. cbn [forallb]. intros H. apply andb_true_iff in H as [H1 H2]. split; [|exact H2].
   destruct (c =? 13); [discriminate|reflexivity]. Qed.
 
-Lemma rep_length {A} n (bs : list A) : length (SynLexer.rep n bs) = (n * length bs)%nat.
+Lemma rep_length n (bs : list byte) : length (SynLexer.rep n bs) = (n * length bs)%nat.
 Proof. induction n as [|n IH]; [reflexivity|]. cbn [rep]. rewrite app_length, IH. lia. Qed.
 
 (* one trivia piece is skipped by skip_gap *)
@@ -199,4 +199,116 @@ Proof.
   - inversion H; subst. destruct r as [|c r].
     + destruct f; [lia|]. reflexivity.
     + destruct f; [lia|]. apply gap_stop. exact TP.
+Qed.
+
+(* ------------------------------------------------------------------------------------------ *)
+(* quoted lexemes, exponents, abstract literals                                                *)
+(* ------------------------------------------------------------------------------------------ *)
+Lemma quoted_body_rest q : forall n s, (length s <= n)%nat -> forall a b t, quoted_body q s = (a, b, t) ->
+  quoted_rest q s = if t then Some (a, b) else None.
+Proof.
+  induction n as [|n IH]; intros s L a b t H.
+  - destruct s; [|cbn [length] in L; lia]. cbn [quoted_body] in H. inversion H. reflexivity.
+  - destruct s as [|x r]; [cbn [quoted_body] in H; inversion H; reflexivity|].
+    cbn [quoted_body quoted_rest] in *. destruct (x =? q) eqn:E.
+    + destruct r as [|y r2]; [inversion H; reflexivity|]. destruct (y =? q) eqn:E2.
+      * destruct (quoted_body q r2) as [[a0 b0] t0] eqn:Q. inversion H; subst.
+        rewrite (IH r2 ltac:(cbn [length] in L; lia) _ _ _ Q). destruct t; reflexivity.
+      * inversion H; subst. reflexivity.
+    + destruct (quoted_body q r) as [[a0 b0] t0] eqn:Q. inversion H; subst.
+      rewrite (IH r ltac:(cbn [length] in L; lia) _ _ _ Q). destruct t; reflexivity.
+Qed.
+Lemma quoted_rest_of q r t r' : quoted (q :: r) = (t, r', true) ->
+  exists body, t = q :: body /\ quoted_rest q r = Some (body, r').
+Proof.
+  unfold quoted. destruct (quoted_body q r) as [[a b] tm] eqn:Q. intros H. inversion H; subst.
+  exists a. split; [reflexivity|]. apply (quoted_body_rest q _ r (le_n _) _ _ _ Q).
+Qed.
+
+Lemma opt_exponent_eq s : opt_exponent s = exponent s.
+Proof.
+  destruct s as [|e r]; [reflexivity|]. unfold opt_exponent, exponent, is_e, is_sign.
+  destruct ((e =? 101) || (e =? 69)); [|reflexivity].
+  destruct r as [|x r']; [reflexivity|].
+  destruct ((x =? 43) || (x =? 45)); rewrite tw_span; reflexivity.
+Qed.
+
+Lemma based_tail_rest i ch r1 t r' : based_tail i ch r1 = (t, r', false) ->
+  exists t', t = i ++ [ch] ++ t' /\ based_rest ch r1 = Some (t', r').
+Proof.
+  unfold based_tail, based_rest. rewrite tw_span.
+  rewrite (span_ext is_identc ident_char _ identc_eq).
+  destruct (span ident_char r1) as [b r2].
+  assert (TAIL : forall fr r3,
+    (let '(cl, r4, err) := match r3 with
+                           | x :: r3' => if x =? ch then ([ch], r3', false) else ([], r3, true)
+                           | [] => ([], r3, true)
+                           end in
+     let '(e, r5) := opt_exponent r4 in (i ++ [ch] ++ b ++ fr ++ cl ++ e, r5, err)) = (t, r', false) ->
+    exists t', t = i ++ [ch] ++ t' /\
+      match r3 with
+      | x :: r3' => if x =? ch then let '(e, r4) := exponent r3' in Some (b ++ fr ++ [ch] ++ e, r4) else None
+      | [] => None
+      end = Some (t', r')).
+  { intros fr r3. destruct r3 as [|x r3'].
+    - destruct (opt_exponent []) as [e r5]. intros H. inversion H.
+    - destruct (x =? ch).
+      + rewrite opt_exponent_eq. destruct (exponent r3') as [e r5]. intros H. inversion H; subst.
+        eexists. split; [|reflexivity]. reflexivity.
+      + destruct (opt_exponent (x :: r3')) as [e r5]. intros H. inversion H. }
+  destruct r2 as [|d r2']; [apply (TAIL [] [])|].
+  destruct (d =? 46); [|apply (TAIL [] (d :: r2'))].
+  rewrite tw_span. rewrite (span_ext is_identc ident_char _ identc_eq).
+  destruct (span ident_char r2') as [b2 r2'']. apply (TAIL (46 :: b2) r2'').
+Qed.
+
+Lemma abstract_literal_eq s t r' : SynLexer.abstract_literal s = (t, r', false) ->
+  LexGrammar.abstract_literal s = Some (t, r').
+Proof.
+  unfold SynLexer.abstract_literal, LexGrammar.abstract_literal. rewrite tw_span.
+  rewrite (span_ext is_intc int_char _ intc_eq). destruct (span int_char s) as [i r].
+  destruct r as [|ch r1]; [intros H; inversion H; reflexivity|].
+  destruct (ch =? 46).
+  { rewrite tw_span. rewrite (span_ext is_intc int_char _ intc_eq). destruct (span int_char r1) as [f r2].
+    rewrite opt_exponent_eq. destruct (exponent r2) as [e r3]. intros H. inversion H. reflexivity. }
+  assert (BASED : forall g : bool, (if (ch =? 35) || (ch =? 58) && g then based_tail i ch r1
+                  else if (ch =? 101) || (ch =? 69) then let '(e, r2) := opt_exponent (ch :: r1) in (i ++ e, r2, false)
+                  else (i, ch :: r1, false)) = (t, r', false) ->
+            (if (ch =? 35) || (ch =? 58) && g
+             then match based_rest ch r1 with Some (t0, r2) => Some (i ++ [ch] ++ t0, r2) | None => None end
+             else if is_e ch then let '(e, r2) := exponent (ch :: r1) in Some (i ++ e, r2)
+             else Some (i, ch :: r1)) = Some (t, r')).
+  { intros g. destruct ((ch =? 35) || (ch =? 58) && g).
+    - intros H. apply based_tail_rest in H as (t' & E & B). rewrite B. subst t. reflexivity.
+    - unfold is_e. destruct ((ch =? 101) || (ch =? 69)).
+      + rewrite opt_exponent_eq. destruct (exponent (ch :: r1)) as [e r2]. intros H. inversion H. reflexivity.
+      + intros H. inversion H. reflexivity. }
+  destruct r1 as [|x r1']; [apply (BASED false)|apply (BASED (letter_or_digit x))].
+Qed.
+
+Lemma abstract_literal_shape s t r' : LexGrammar.abstract_literal s = Some (t, r') ->
+  let i := fst (span int_char s) in
+  (t = i /\ r' = snd (span int_char s)) \/
+  (exists x more, t = i ++ x :: more /\ int_char x = false /\ bs1 x = false /\ bs2a x = false).
+Proof.
+  unfold LexGrammar.abstract_literal. destruct (span int_char s) as [i r] eqn:S. cbn [fst snd].
+  destruct r as [|ch r1]; [intros H; inversion H; left; split; reflexivity|].
+  destruct (ch =? 46) eqn:E46.
+  { apply N.eqb_eq in E46; subst ch. destruct (span int_char r1) as [f r2]. destruct (exponent r2) as [e r3].
+    intros H. inversion H; subst. right. exists 46, (f ++ e). split; [reflexivity|]. repeat split; reflexivity. }
+  destruct ((ch =? 35) || (ch =? 58) && match r1 with x :: _ => letter_or_digit x | [] => false end) eqn:EB.
+  { destruct (based_rest ch r1) as [[tb r2]|]; [|discriminate]. intros H. inversion H; subst.
+    right. exists ch, tb. split; [reflexivity|].
+    apply orb_true_iff in EB as [EB|EB].
+    - apply N.eqb_eq in EB; subst ch. repeat split; reflexivity.
+    - apply andb_true_iff in EB as [EB _]. apply N.eqb_eq in EB; subst ch. repeat split; reflexivity. }
+  destruct (is_e ch) eqn:EE.
+  { unfold exponent. rewrite EE.
+    destruct (match r1 with
+              | x :: r'0 => if is_sign x then ([x], r'0) else ([], r1)
+              | [] => ([], r1) end) as [sg r2].
+    destruct (span int_char r2) as [d r3]. intros H. inversion H; subst.
+    right. exists ch, (sg ++ d). split; [reflexivity|].
+    unfold is_e in EE. apply orb_true_iff in EE as [EE|EE]; apply N.eqb_eq in EE; subst ch; repeat split; reflexivity. }
+  intros H. inversion H; subst. left. split; reflexivity.
 Qed.
